@@ -274,6 +274,32 @@ def constructSupplemented (Infer : InferFn)
   | .error e => .error e
   | .ok std => own c std
 
+/-! ## Value propagation (`Node.inference`, second half) -/
+
+structure OutVar where
+  key : String
+  ty : Option Ty
+  val : Option String
+  deriving DecidableEq, Repr, Inhabited
+
+def lookupV (k : String) : List (String × String) → Option String
+  | [] => none
+  | (k', v) :: rest => if k' = k then some v else lookupV k rest
+
+/-- `Node.inference` as a whole: the types come from `construct`; afterwards the backend `prop`
+    (none / reference / onnxruntime, together with `PropValue.check`; it may look at the call and at
+    the inferred types) offers values by output key, and a value is attached only to an output whose
+    type is known. The types are not touched again. -/
+def constructVP (Infer : InferFn)
+    (prop : Call → List (String × Option Ty) → List (String × String)) (c : Call) :
+    Except Err (List OutVar) :=
+  match construct Infer c with
+  | .error e => .error e
+  | .ok tys => .ok (tys.map (fun p =>
+      { key := p.1, ty := p.2, val := match p.2 with
+                                       | none => none
+                                       | some _ => lookupV p.1 (prop c tys) }))
+
 /-! ## Sequences of calls in one process -/
 
 abbrev Result := Except Err (List (String × Option Ty))
